@@ -357,6 +357,7 @@ var _ meta.ResettableRESTMapper = &dynMapper{}
 // reflector then RE-LISTS (after its 0.8-1.6 s backoff) and opens a new watch.
 type proxyWatch struct {
 	kind    int
+	ns      string
 	inner   watch.Interface
 	out     chan watch.Event
 	stopCh  chan struct{}
@@ -530,6 +531,9 @@ func runReporterScript(sc *rscript) (obs *robs) {
 	var proxyMu sync.Mutex
 	var proxies []*proxyWatch
 	dropFlag := make([]int32, len(kinds))
+	// (kind, namespace) pairs whose next Watch call is answered 410 Gone, once each
+	var goneMu sync.Mutex
+	gonePending := map[string]bool{}
 	watchCount := make([]int64, len(kinds))
 	client.PrependWatchReactor("*", func(a clienttesting.Action) (bool, watch.Interface, error) {
 		atomic.AddInt64(&act, 1)
@@ -542,11 +546,22 @@ func runReporterScript(sc *rscript) (obs *robs) {
 		if kind < 0 {
 			return false, nil, nil
 		}
+		goneKey := fmt.Sprintf("%d/%s", kind, a.GetNamespace())
+		goneMu.Lock()
+		goneNow := gonePending[goneKey]
+		delete(gonePending, goneKey)
+		goneMu.Unlock()
+		if goneNow {
+			// an API server (or a proxy in front of it) that answers "resourceVersion too old" with reason
+			// Gone instead of Expired: the reflector hands it to the watch error handler and retries (seed C16f)
+			return true, nil, apierrors.NewGone("too old resource version")
+		}
 		inner, err := client.Tracker().Watch(a.GetResource(), a.GetNamespace())
 		if err != nil {
 			return true, nil, err
 		}
 		pw := newProxyWatch(kind, inner, &dropFlag[kind])
+		pw.ns = a.GetNamespace()
 		proxyMu.Lock()
 		proxies = append(proxies, pw)
 		proxyMu.Unlock()
@@ -722,6 +737,15 @@ func runReporterScript(sc *rscript) (obs *robs) {
 			proxyMu.Lock()
 			cur := append([]*proxyWatch(nil), proxies...)
 			proxyMu.Unlock()
+			if s.variant == 1 {
+				goneMu.Lock()
+				for _, pw := range cur {
+					if pw.kind == k && atomic.LoadInt32(&pw.stopped) == 0 {
+						gonePending[fmt.Sprintf("%d/%s", k, pw.ns)] = true
+					}
+				}
+				goneMu.Unlock()
+			}
 			before := atomic.LoadInt64(&watchCount[k])
 			n := int64(0)
 			for _, pw := range cur {
@@ -857,7 +881,7 @@ func reporterCorpus() []*rscript {
 	// watch gaps: the change is learnt from the RE-LIST after a 410 Expired, not
 	// from a watch event (tombstone deletes, synthetic adds/updates)
 	for _, root := range []bool{true, false} {
-		brk, rel := rstep{"break", sec(1, 1), 0}, rstep{"relist", sec(1, 1), 0}
+		brk, rel := rstep{"break", sec(1, 1), 0}, rstep{"relist", sec(1, 1), b2i(root)}
 		l = append(l,
 			&rscript{label: "gap:delete", root: root, watched: []oid{sec(1, 1), sec(1, 2), cm(1, 1)},
 				pre: []preObj{{sec(1, 1), 0}, {sec(1, 2), 1}, {sec(2, 2), 0}},
@@ -1195,7 +1219,7 @@ func genGapScript(r *rand.Rand) *rscript {
 			}
 		}
 	}
-	sc.steps = append(sc.steps, rstep{"relist", objs[0], 0})
+	sc.steps = append(sc.steps, rstep{"relist", objs[0], r.Intn(2)})
 	some(r.Intn(4))
 	return sc
 }
@@ -1282,7 +1306,17 @@ func (sc *rscript) caseTerm(o *robs) (string, string) {
 			txt = append(txt, "BREAK-WATCH "+kinds[s.id.gk].gvk.Kind)
 		case "relist":
 			steps = append(steps, fmt.Sprintf("(SRelist %d)", s.id.gk))
-			txt = append(txt, "410-RELIST "+kinds[s.id.gk].gvk.Kind)
+			if s.variant == 1 {
+				// the Watch call after the re-list is answered Gone: the reflector backs off and lists
+				// once more (nothing can be missed in between: the script is sequential), so every
+				// listed object is reported a second time
+				steps = append(steps, fmt.Sprintf("(SBreak %d)", s.id.gk), fmt.Sprintf("(SRelist %d)", s.id.gk))
+			}
+			if s.variant == 1 {
+				txt = append(txt, "410-RELIST(next watch answered Gone) "+kinds[s.id.gk].gvk.Kind)
+			} else {
+				txt = append(txt, "410-RELIST "+kinds[s.id.gk].gvk.Kind)
+			}
 		case "forbid":
 			txt = append(txt, "forbid-list "+kinds[s.id.gk].gvk.Kind)
 		case "fail":
@@ -1481,4 +1515,11 @@ func runReporter(r *rand.Rand, tier, outDir string, sum *emit.Summary) error {
 		sum.Samples = append(sum.Samples, cf.Text[0], cf.Text[len(cf.Text)-1])
 	}
 	return cf.Write(outDir, sum)
+}
+
+func b2i(b bool) int {
+	if b {
+		return 1
+	}
+	return 0
 }
